@@ -36,6 +36,12 @@ pub enum MessageReader<'a> {
     Reader(Box<dyn DebugBufRead + 'a>),
 }
 
+/// How many compression and encryption layers a message may be wrapped in.
+///
+/// Reading walks through all layers recursively, so the depth has to be bounded
+/// (GnuPG uses the same limit).
+pub(crate) const MAX_NESTING_DEPTH: usize = 32;
+
 impl MessageReader<'_> {
     pub fn get_mut(&mut self) -> &mut Self {
         match self {
@@ -43,6 +49,17 @@ impl MessageReader<'_> {
             Self::Edata(r) => r.get_mut().get_mut().get_mut(),
             Self::Reader(_r) => self,
         }
+    }
+
+    /// The number of compression and encryption layers this reader is made of.
+    pub(crate) fn nesting_depth(&mut self) -> usize {
+        let mut depth = 0;
+        let mut current = self;
+        while !matches!(current, Self::Reader(_)) {
+            current = current.get_mut();
+            depth += 1;
+        }
+        depth
     }
 
     fn check_trailing_data(&mut self) -> io::Result<()> {
